@@ -40,7 +40,7 @@ theorem grid2_at_knot {E : Ext α} (S : ExtSpec E) (cf : α) (wl : Option α) (h
   rw [S.pow_log _ (conv_pos cf wl hcf hwl y hypos)]
 
 
-theorem grid2_at_knot' {E : Ext α} (S : ExtSpec E) (hl : LogAgree E) (cf : α) (wl : Option α) (hcf : 0 < cf)
+theorem grid2_at_knot_raw {E : Ext α} (S : ExtSpec E) (hl : LogAgree E) (cf : α) (wl : Option α) (hcf : 0 < cf)
     (hwl : ∀ w ∈ wl, 0 < w) (k : Extrap) (ex : Bool) (t : Table2 α) (h : WF2 t) (h1 : 2 ≤ t.ne.length)
     (h2 : 2 ≤ t.te.length) (i j : Nat) (n T y : α) (row : List α) (hn : t.ne[i]? = some n) (hT : t.te[j]? = some T)
     (hrow : t.rate[i]? = some row) (hy : row[j]? = some y) :
@@ -823,14 +823,14 @@ theorem exTable_wf : WF2 exTable := by
 
 /-- table reproduction on the concrete table: grid point (10, 2) ↦ stored value 5 (no photon conversion) … -/
 example : grid2 (realExt 0) 1 none Extrap.nearest false exTable 10 2 = Out.val 5 :=
-  grid2_at_knot' (realExt_spec 0) realExt_logAgree 1 none one_pos (by simp) Extrap.nearest false exTable exTable_wf
+  grid2_at_knot_raw (realExt_spec 0) realExt_logAgree 1 none one_pos (by simp) Extrap.nearest false exTable exTable_wf
     (by simp [exTable]) (by simp [exTable]) 1 0 10 2 5 [5, 6] rfl rfl rfl rfl
 
 
 /-- … and with the photon conversion `x · cf / λ` -/
 example : grid2 (realExt 0) 3 (some 2) Extrap.nearest true exTable 1 20 = Out.val (4 * 3 / 2) := by
   rw [← conv_photon]
-  exact grid2_at_knot' (realExt_spec 0) realExt_logAgree 3 (some 2) (by norm_num) (by simp) Extrap.nearest true exTable
+  exact grid2_at_knot_raw (realExt_spec 0) realExt_logAgree 3 (some 2) (by norm_num) (by simp) Extrap.nearest true exTable
     exTable_wf (by simp [exTable]) (by simp [exTable]) 0 1 1 20 4 [3, 4] rfl rfl rfl rfl
 
 
